@@ -167,6 +167,10 @@ func MakeConfig(seed uint64, profile, tier string) SwarmConfig {
 		}
 	case "C20":
 		emph("orders", "executor", "perp", "trader")
+		if r.IntN(3) == 0 {
+			c.Rate["squatter"] = 0.0001 // only its escrow-dust behaviour
+			c.Rate["escrowdust"] = 1
+		}
 	}
 	return c
 }
@@ -198,9 +202,17 @@ func newBootstrap(s *Sim) *BootstrapAgent {
 	// pool 1 is always the USDC/ATOM oracle pool (leveragelp + perpetual)
 	b.plans = append(b.plans, poolPlan{other: DenomATOM, oracle: true, wUSDC: 50, wOther: 50, usdc: pick(r, []int64{2e9, 5e10, 2e11})})
 	others := []string{DenomELYS, DenomWBTC, DenomTIA, DenomINC, DenomATOM}
+	twin := r.IntN(4) == 0
+	if twin {
+		// a second oracle pool for the same pair as pool 1: the same trading asset on two markets
+		others = []string{DenomATOM, DenomELYS, DenomWBTC, DenomTIA, DenomINC}
+	}
 	for i := 1; i < s.Cfg.NumPools; i++ {
 		o := others[(i-1)%len(others)]
 		oracle := o != DenomINC && r.IntN(3) == 0
+		if twin && i == 1 {
+			oracle = true
+		}
 		w := pick(r, [][2]int64{{50, 50}, {1, 1}, {20, 80}, {90, 10}, {1, 9}, {70, 30}})
 		if oracle {
 			w = [2]int64{50, 50}
